@@ -86,13 +86,19 @@ class _Gen:
         rng = self.rng
         inn = rng.random() < 0.4
         n = rng.choice([0, 1, 2, 2, 3])
+        def lazily(items):
+            """sometimes the list is a generator / iterator that raises after k = 0, 1, 2.. items"""
+            if rng.random() < 0.2:
+                items.insert(rng.choice([0, min(1, len(items)), min(2, len(items)), len(items)]), ["raise", rng.randint(0, 1)])
+            return items
+
         if rng.random() < 0.4:
             if rng.random() < 0.3:
                 items = [["null"] if rng.random() < 0.2 else ["snull"] if rng.random() < 0.4
                          else ["int", rng.randint(0, 9)] for _ in range(n)]
-                return ["list", inn, "sc", items]
+                return ["list", inn, "sc", lazily(items)]
             items = [["null"] if rng.random() < 0.25 else ["int", rng.randint(0, 9)] for _ in range(n)]
-            return ["list", inn, "int", items]
+            return ["list", inn, "int", lazily(items)]
         template = self.fields(depth, rng.randint(1, 2))
         items = []
         for _ in range(n):
@@ -107,7 +113,7 @@ class _Gen:
             if rng.random() < 0.7:
                 items.insert(rng.choice([0, len(items) // 2, len(items)]), ["bad"])
             return ["list", inn, "abs", items]
-        return ["list", inn, "obj", items]
+        return ["list", inn, "obj", lazily(items)]
 
     def vary(self, fields):
         """same selection, fresh outcomes at the scalar leaves"""
@@ -143,7 +149,7 @@ def n_tasks(program, config):
                 walk(g)
         elif b[0] == "list":
             for it in b[3]:
-                if it[0] == "bad":       # later items are never started
+                if it[0] in ("bad", "raise"):       # later items are never started
                     break
                 if it[0] == "obj":
                     for g in it[1]:
